@@ -3,3 +3,4 @@
 //! them directly. Nothing here changes behaviour.
 
 pub use crate::segments::{CommitLog, Position, Storage};
+pub use crate::link::network::Network;
